@@ -78,8 +78,8 @@ structure Proc where
   ppid : Nat := 1
   /-- `/dev/tty` exists in the file system (not per-process state; carried here for convenience) -/
   ttyAvail : Bool := false
-  /-- `resource_limits[NOFILE].soft` as `ulimit -S -n` prints it (`unlimited` when not set) -/
-  nofile : String := "unlimited"
+  /-- `resource_limits[NOFILE].soft` (`none` = not set / `INFINITY`; `ulimit -S -n` then prints `unlimited`) -/
+  nofile : Option Nat := none
 
 /-- `JobList` as far as a subshell can see it: the listed jobs (job number, identity, `is_owned`), the job
     `$!` designates (`last_async_pid`), and a counter for fresh identities. All jobs of the sweep are running. -/
@@ -199,7 +199,7 @@ def Proc.forkFrom (copied : List (String × String)) (ppid : Nat) (parent : Proc
     ppid := ppid, ttyAvail := parent.ttyAvail,
     -- the limits are copied or start unset; they never filter the descriptor table (`fds` above is the
     -- parent's table whatever `nofile` is — POSIX: a fork duplicates every open descriptor)
-    nofile := if isCopied copied "resource_limits" then parent.nofile else "unlimited" }
+    nofile := if isCopied copied "resource_limits" then parent.nofile else none }
 
 /-- the code as it is -/
 def implCopied : List (String × String) := Generated.ForkMaps.processForkMap
@@ -256,7 +256,10 @@ inductive Op where
   | optOn (o : String) | optOff (o : String) | shift | args (xs : List String)
   | cd (d : String) | umask (m : String) | trap (cond : Nat) (a : TrapAct)
   | fdw (n : Nat) (file : String) | fdr (n : Nat) | fdd (n m : Nat) | fdc (n : Nat)
-  | local (n v : String) | raise (sig : Nat) | bg | exit (n : Nat) | nofile (v : String)
+  | local (n v : String) | raise (sig : Nat) | bg | exit (n : Nat) | nofile (v : Option Nat)
+  /-- a scheduling point of the starter between `&` and `wait` (`( : )`): changes WHEN the asynchronous child
+      runs, and nothing else -/
+  | yield
   deriving DecidableEq, Repr
 
 /-- sorted insertion into the list of enabled options -/
@@ -368,9 +371,13 @@ def dirExists (p : String) : Bool :=
 
 /-! ## `Process` methods (`yash-env/src/system/virtual/process.rs`) -/
 
-/-- `resource_limits.get(&Resource::NOFILE).map(|l| l.soft)` (`none` = `INFINITY`), from the text `ulimit -S -n`
-    prints (the representation of `Proc.nofile`) -/
-def nofileLimit (p : Proc) : Option Nat := if p.nofile = "unlimited" then none else p.nofile.toNat?
+/-- `resource_limits.get(&Resource::NOFILE).map(|l| l.soft)` (`none` = `INFINITY`) -/
+def nofileLimit (p : Proc) : Option Nat := p.nofile
+
+/-- the limit as `ulimit -S -n` prints it -/
+def showLimit : Option Nat → String
+  | none => "unlimited"
+  | some n => toString n
 
 /-- the guard of `Process::set_fd` / `Process::has_unused_fd`: `limit == INFINITY || fd < limit` -/
 def fdAllowed (p : Proc) (fd : Nat) : Bool :=
@@ -398,8 +405,8 @@ inductive Call where
   | umask (m : String)
   /-- `Chdir::chdir` -/
   | chdir (path : String)
-  /-- `Open::open` of an existing regular file, write-only, no flags (→ `create_fd` → `open_fd`) -/
-  | open (file : String)
+  /-- `Open::open` of an existing file (→ `create_fd` → `open_fd`); `cloexec` = `OpenFlag::CloseOnExec` among the flags -/
+  | open (file : String) (cloexec : Bool := false)
   /-- `Dup::dup(from, to_min, flags)` -/
   | dup (src min : Nat) (cloexec : Bool)
   /-- `Dup::dup2(from, to)` -/
@@ -413,7 +420,7 @@ inductive Call where
   /-- `Sigmask::sigmask(Some((Add | Remove, {sig})), None)` -/
   | sigmask (block : Bool) (sig : Nat)
   /-- `SetRlimit::setrlimit(Resource::NOFILE, LimitPair { soft, hard: INFINITY })` -/
-  | setrlimit (soft : String)
+  | setrlimit (soft : Option Nat)
   deriving DecidableEq, Repr
 
 /-- what a call answers: `Ok(())`, `Ok(fd)`, or `Err(errno)` -/
@@ -442,10 +449,10 @@ def Call.runT : Call → Proc → CallRes × Proc
     -- `cwd.join(path)` with `.` dropped and `..` resolved
     if dirExists (joinPath p.cwd path) then (.ok, { p with cwd := normalizePath (joinPath p.cwd path) })
     else (.err "ENOENT", p)
-  | .open file, p =>
+  | .open file x, p =>
     -- `has_unused_fd()` is checked before the file is resolved; then `create_fd` → `open_fd`
     if fdAllowed p (minUnusedFd p.fds 0) then
-      match p.openFdGe 0 { label := file } with
+      match p.openFdGe 0 { label := file, cloexec := x } with
       | some (fd, q) => (.fd fd, q)
       | none => (.err "EMFILE", p)
     else (.err "EMFILE", p)
@@ -585,13 +592,23 @@ def redirOp (sh : Shell) (n : Nat) (b : RedirBody) : Shell :=
   let sh1 : Shell := { sh with env := { sh.env with system := r.2 } }
   if r.1 then sh1 else builtinError sh1
 
-/-- `Env::get_tty`: `/dev/tty` is opened once, moved to the lowest free descriptor >= 10 with CLOEXEC and
-    remembered in `env.tty` -/
+/-- `Env::get_tty`: once (`env.tty` caches the answer) `/dev/tty` is opened with `CloseOnExec | NoCtty`, then
+    `io::move_fd_internal`: a descriptor already at or above `MIN_INTERNAL_FD` stays; otherwise
+    `dup(fd, MIN_INTERNAL_FD, CloseOnExec)` and `close(fd)` whatever `dup` answered; `env.tty = dup's answer .ok()`.
+    Every step is a system call of the shell's own process (`getTty_is_own_calls`). -/
 def getTty (env : Env) : Env :=
   if env.tty.isSome || !env.system.ttyAvail then env else
-  let fd := ((List.range 8).map (· + 10)).find? (fun n => (fdGet env.system.fds n).isNone) |>.getD 10
-  { env with tty := some fd,
-             system := { env.system with fds := fdPut env.system.fds fd { label := "tty", cloexec := true } } }
+  let o := (Call.open "tty" true).runT env.system
+  match o.1 with
+  | .fd k =>
+    if minInternalFd ≤ k then { env with tty := some k, system := o.2 }
+    else
+      let d := (Call.dup k minInternalFd true).runT o.2
+      let q := ((Call.close k).runT d.2).2
+      match d.1 with
+      | .fd n => { env with tty := some n, system := q }
+      | _ => { env with system := q }
+  | _ => { env with system := o.2 }
 
 /-- the `set` built-in after changing `monitor` outside a subshell ("reinitialize job control"): the shell is
     internal dispositions for the stop signals are enabled iff the `interactive` and `monitor` options are both
@@ -635,6 +652,7 @@ def applyOpCore (sh : Shell) (op : Op) : Shell :=
   | .bg => { sh with env := { env with jobs := env.jobs.add } }
   | .nofile v => { sh with env := { env with system := ((Call.setrlimit v).runT env.system).2 } }
   | .exit _ => sh
+  | .yield => sh
   | .shift => { sh with env := { env with variables := { env.variables with params := env.variables.params.drop 1 } } }
   | .args xs => { sh with env := { env with variables := { env.variables with params := xs } } }
   | .cd d =>
@@ -731,7 +749,7 @@ def showSnapshot (env : Env) : String :=
   let f := env.functions.map fun kv => kv.1 ++ "=" ++ kv.2
   let a := env.aliases.map fun kv => kv.1 ++ "=" ++ kv.2
   let t := trackedConds.filterMap (showTrapLine env)
-  s!"v={",".intercalate v} f={",".intercalate f} a={",".intercalate a} o={",".intercalate env.options} u={env.system.umask} l={env.system.nofile} t={",".intercalate t} p={",".intercalate env.variables.params} {showSys env.system} {showJobs env.jobs}"
+  s!"v={",".intercalate v} f={",".intercalate f} a={",".intercalate a} o={",".intercalate env.options} u={env.system.umask} l={showLimit env.system.nofile} t={",".intercalate t} p={",".intercalate env.variables.params} {showSys env.system} {showJobs env.jobs}"
 
 /-- take snapshot `tag` in a live process; `withTrap = false`: the snapshot does not run the `trap` built-in
     (no peeking, empty `t=`) -/
@@ -751,7 +769,9 @@ inductive Kind where
   | paren | subst | pipeF | pipeM | pipeL | async
   deriving DecidableEq, Repr
 
-/-- the plumbing the child performs on its own fd table before the body runs -/
+/-- the plumbing the child performs on its own fd table before the body runs, as the snapshot shows it: the pipe
+    ends / `/dev/null` at fd 0 / fd 1 (the descriptors the starter opened for the pipe are closed again on both sides;
+    `plumbCalls` + `plumb_is_own_calls` give the system calls behind it) -/
 def plumb (k : Kind) (jc : Bool) (env : Env) : Env :=
   let setFd (e : Env) (n : Nat) (l : String) : Env :=
     { e with system := { e.system with fds := fdPut e.system.fds n { label := l } } }
@@ -762,6 +782,52 @@ def plumb (k : Kind) (jc : Bool) (env : Env) : Env :=
   | .pipeM => setFd (setFd env 0 "pipe") 1 "pipe"
   | .pipeL => setFd env 0 "pipe"
   | .async => if jc then env else setFd env 0 "null"   -- `nullify_stdin` only without job control
+
+/-- `yash-semantics/src/command/pipeline.rs` `struct PipeSet`: the read end left over from the previous command and
+    the pipe to the next one — descriptors the STARTER opened with `Pipe::pipe` before the fork -/
+structure PipeSet where
+  readPrevious : Option Nat := none
+  next : Option (Nat × Nat) := none
+  deriving DecidableEq, Repr
+
+/-- `PipeSet::move_to_stdin_stdout`, the calls of the child (also `subshell_body` of command_subst.rs, which is the
+    same with `next = (reader, writer)` and no previous end): `close(reader)`; `dup2(writer, 1)`, `close(writer)` unless
+    the writer is fd 1; `dup2(previous, 0)`, `close(previous)` unless it is fd 0.  (The corner `read_previous == 1`,
+    where the code first moves the end away with `dup`, needs stdout closed in the starter and is left out.) -/
+def moveToStdinStdout (ps : PipeSet) : List Call :=
+  (match ps.next with
+   | some (r, w) => [Call.close r] ++ (if w ≠ 1 then [Call.dup2 w 1, Call.close w] else [])
+   | none => [])
+  ++ (match ps.readPrevious with
+   | some rp => if rp ≠ 0 then [Call.dup2 rp 0, Call.close rp] else []
+   | none => [])
+
+/-- `nullify_stdin` of command/item.rs: `close(0)`, `open("/dev/null")` (which then answers fd 0) -/
+def nullifyStdin : List Call := [.close 0, .open "null"]
+
+/-- the `PipeSet` a subshell of kind `k` is started with, given the ends the starter holds -/
+def kindPipes (k : Kind) (rp r w : Nat) : PipeSet :=
+  match k with
+  | .subst | .pipeF => { next := some (r, w) }
+  | .pipeM => { readPrevious := some rp, next := some (r, w) }
+  | .pipeL => { readPrevious := some rp }
+  | _ => {}
+
+/-- the child's own system calls between the fork and its body, for every kind -/
+def plumbCalls (k : Kind) (jc : Bool) (rp r w : Nat) : List Call :=
+  match k with
+  | .paren => []
+  | .async => if jc then [] else nullifyStdin
+  | _ => moveToStdinStdout (kindPipes k rp r w)
+
+/-- the starter's own calls after the fork: it closes the ends it opened for this child (`PipeSet::shift`,
+    `expand_common`) -/
+def starterCloses (k : Kind) (rp r w : Nat) : List Call :=
+  match k with
+  | .subst | .pipeF => [.close w, .close r]
+  | .pipeM => [.close rp, .close w, .close r]
+  | .pipeL => [.close rp]
+  | _ => []
 
 /-- `run_exit_trap` at the end of a subshell / of the shell -/
 def runExitTrap (sh : Shell) : Shell :=
